@@ -283,7 +283,24 @@ pub fn run(ctx: &Ctx) -> Report {
     };
     let labels: Vec<String> = UNKNOWN_LABELS.iter().map(|s| s.to_string()).collect();
     let base2 = total * 4;
-    let n2 = (bad_bodies.len() + labels.len() * 3) as u64 * 2;
+    // all-ASCII bodies that are undecodable under the charset the request declares: any non-empty body under the
+    // labels whose decoder accepts nothing (the WHATWG "replacement" group), and an escape character that starts no
+    // escape sequence under the stateful 7-bit ISO-2022-JP
+    let ascii_undecodable: Vec<(String, Vec<u8>)> = {
+        let mut v: Vec<(String, Vec<u8>)> = Vec::new();
+        for l in ["iso-2022-kr", "iso-2022-cn", "iso-2022-cn-ext", "csiso2022kr", "ISO-2022-KR"] {
+            for b in [&b"a=1"[..], b"x", b"Action=ListUsers&Version=2010-05-08", b"a=%41"] {
+                v.push((l.to_string(), b.to_vec()));
+            }
+        }
+        for l in ["iso-2022-jp", "csiso2022jp", "ISO-2022-JP"] {
+            for b in [&b"a=\x1b"[..], b"\x1b", b"a=\x1bx1&b=2", b"a=1&b=\x1b\x1b", b"q=\x1b!B"] {
+                v.push((l.to_string(), b.to_vec()));
+            }
+        }
+        v
+    };
+    let n2 = (bad_bodies.len() + labels.len() * 3 + ascii_undecodable.len()) as u64 * 2;
     // a correctly signed folded form request (parameters in URL and body), validated right after every refused
     // body on the same thread: what a refused body left behind must not reach the next request
     let follow_up: Vec<Case> = [Carrier::Header, Carrier::Query]
@@ -311,6 +328,11 @@ pub fn run(ctx: &Ctx) -> Report {
             plan.body = bad_bodies[k].1.clone();
             plan.headers.push(("Content-Type".into(), b"application/x-www-form-urlencoded".to_vec()));
             label = bad_bodies[k].0.to_string();
+        } else if k >= bad_bodies.len() + labels.len() * 3 {
+            let (l, b) = &ascii_undecodable[k - bad_bodies.len() - labels.len() * 3];
+            plan.body = b.clone();
+            plan.headers.push(("Content-Type".into(), format!("application/x-www-form-urlencoded; charset={}", l).into_bytes()));
+            label = format!("charset={} with an all-ASCII body it cannot decode", l);
         } else {
             let kk = k - bad_bodies.len();
             let l = &labels[kk / 3];
@@ -646,7 +668,7 @@ pub fn run(ctx: &Ctx) -> Report {
     Report {
         stats: st,
         rule: format!(
-            "(1) every URL parameter list x every body parameter list, each of 0..2 (thorough: 0..3) pairs over names {{a,b}} x values {{1,2,empty}} (all same-name-in-both patterns) x {} content-type spellings (absent, exact, charset utf-8/UTF-8/utf8, extra parameter, valueless charset, iso-8859-1, bogus, case variant, longer type, text/plain, json, two headers in both orders, padded) x {{fold off, fold on, fold on + S3}} x carrier; each case signed two ways — F (body parameters as if appended to the URL, payload = empty) and V (URL only, payload = body) — and both judged by the reference verifier; returned body / URI compared with the statement; F and V never both accepted unless identical; (2) 133 undecodable bodies and 3 unknown charset labels x 3 bodies => InvalidBodyEncoding/400 with the provider untouched, each followed on the same thread by a correctly signed folded request that must be accepted; (3) where folding does not apply — under {{default, S3, fold, S3+fold}}, with no / a signed / an unsigned X-Amz-Content-Sha256 header carrying the digest of the signed body, or UNSIGNED-PAYLOAD — every single-bit flip of every body byte (4 bodies incl. all 256 byte values), an append, a truncation, a replacement and an emptied body are refused, and the unchanged request (also the folded one, whose declared digest is not that of an empty body) is accepted; (5) 27 form bodies of 65 kB .. 200 kB whose parameters are small (percent-escaped unreserved characters, runs of '&', 4000 tiny parameters) are folded and accepted on both carriers; (6) presigned (query-string) folded requests in which one of X-Amz-Credential / -Date / -SignedHeaders / -Security-Token / -Signature / -Algorithm has a second, different value in the body — good in the URL and bad in the body, or the reverse — x 0..10 other body parameters x 0 / 2 / 6 other URL parameters x token: the URL's value counts (body parameters come after the URL's). states = distinct reference canonical requests",
+            "(1) every URL parameter list x every body parameter list, each of 0..2 (thorough: 0..3) pairs over names {{a,b}} x values {{1,2,empty}} (all same-name-in-both patterns) x {} content-type spellings (absent, exact, charset utf-8/UTF-8/utf8, extra parameter, valueless charset, iso-8859-1, bogus, case variant, longer type, text/plain, json, two headers in both orders, padded) x {{fold off, fold on, fold on + S3}} x carrier; each case signed two ways — F (body parameters as if appended to the URL, payload = empty) and V (URL only, payload = body) — and both judged by the reference verifier; returned body / URI compared with the statement; F and V never both accepted unless identical; (2) 133 undecodable bodies and 3 unknown charset labels x 3 bodies => InvalidBodyEncoding/400 with the provider untouched, each followed on the same thread by a correctly signed folded request that must be accepted; (2b) all-ASCII bodies that the declared charset cannot decode (any non-empty body under iso-2022-kr / iso-2022-cn / iso-2022-cn-ext / csiso2022kr, an escape character that starts no escape sequence under iso-2022-jp) are refused as InvalidBodyEncoding; (3) where folding does not apply — under {{default, S3, fold, S3+fold}}, with no / a signed / an unsigned X-Amz-Content-Sha256 header carrying the digest of the signed body, or UNSIGNED-PAYLOAD — every single-bit flip of every body byte (4 bodies incl. all 256 byte values), an append, a truncation, a replacement and an emptied body are refused, and the unchanged request (also the folded one, whose declared digest is not that of an empty body) is accepted; (5) 27 form bodies of 65 kB .. 200 kB whose parameters are small (percent-escaped unreserved characters, runs of '&', 4000 tiny parameters) are folded and accepted on both carriers; (6) presigned (query-string) folded requests in which one of X-Amz-Credential / -Date / -SignedHeaders / -Security-Token / -Signature / -Algorithm has a second, different value in the body — good in the URL and bad in the body, or the reverse — x 0..10 other body parameters x 0 / 2 / 6 other URL parameters x token: the URL's value counts (body parameters come after the URL's). states = distinct reference canonical requests",
             n_ct
         ),
         bounds: json!({"url_lists": n_lists, "body_lists": n_lists, "content_types": n_ct, "bit_flip_cases": n3}),
